@@ -34,7 +34,7 @@ ASSIGNED a code location no earlier change had touched - different test-case gen
 the deserialiser-side programs, per-sequence bookkeeping, the helpers of the header generator, ...), each written by a fresh
 sub-agent that saw only the property text and a scratch worktree, each confirmed (demo fails with / passes without the
 change; the 3499 stable passes unchanged) before it was kept. **All are reported as VIOLATION by the quick check named in
-their meta.json, with a concrete failing input** (`harness/seed_matrix.sh`; last full run `seeded/_matrix/quick_seed0_final.txt`: 177 of 183 lines VIOLATION with a concrete input, none `no-failing-input-found`; the six C24 lines are INCONCLUSIVE - that run had eight shards going at once and the C24 check, which itself starts 14 processes, hit its time limits (exit 2, not a verdict): C24, C24h1 and C24i1 were confirmed one at a time after the CSV of C24 was changed in round 8, C24b / C24d / C24f1 were last confirmed with the previous CSV - matrices of seeds 0 and 3 - and timed out when re-run on the loaded machine). The last column says which part of the check
+their meta.json, with a concrete failing input** (`harness/seed_matrix.sh`; last full run `seeded/_matrix/quick_seed0_final.txt`: 177 of 183 lines VIOLATION with a concrete input, none `no-failing-input-found`; the six C24 lines are INCONCLUSIVE - that run had eight shards going at once and the C24 check, which itself starts 14 processes, hit its time limits (exit 2, not a verdict): C24, C24h1 and C24i1 were confirmed one at a time after the CSV of C24 was changed in round 8, C24b was confirmed again afterwards on the idle machine; C24f1, whose visibility depends on the shuffled schedule, gave OK in one idle re-run (seed 0) - a per-run miss that is recorded, not explained away; C24d was last confirmed with the previous CSV and timed out when re-run on the loaded machine). The last column says which part of the check
 catches the change and, where the FIRST version of the check missed it or could only report a broken obligation without a
 failing input, what was strengthened: round 1 — C05, C06, C10 (by C01), C20, C21, C03; round 2 — C15b, C25b, C10b and C06b (missed),
 C03b (missed by C03, caught by C15), C14b and C08b (no failing input at first), C26b (the check hung); round 3 — C28c, C03c, C08c (missed),
